@@ -45,6 +45,8 @@ PROPS = {
                 quick=['std-lax', 'std-strict'], thorough=list(CONFIGS)),
     'C02': dict(workload='C02', oracle=['C02'], project=proj_identity,
                 quick=['std-lax'], thorough=['std-lax', 'nostd-lax']),
+    'C03': dict(workload='C03', oracle=['C03'], project=proj_identity,
+                quick=['std-lax'], thorough=['std-lax', 'nostd-lax']),
     'C04': dict(workload='C04', oracle=['C04'], project=proj_accept,
                 quick=['std-lax', 'std-strict'], thorough=list(CONFIGS)),
     'C05': dict(workload='C05', oracle=['C05'], project=proj_identity,
